@@ -1026,7 +1026,7 @@ func runC14(c *Ctx) {
 	r := c.Rng
 	exLen, nArch, nDup := 2, 260, 120
 	if c.Tier == "thorough" {
-		exLen, nArch, nDup = 3, 6000, 2500
+		exLen, nArch, nDup = 3, 3000, 1500
 	}
 	kinds := []string{"zip", "tar"}
 
